@@ -62,6 +62,7 @@ type C07Case struct {
 	Pre       []C07Slot      `json:"pre_slots"`
 	NMsgs     int            `json:"n_msgs"`
 	NAccess   int            `json:"n_access"`
+	GasTight  int64          `json:"gas_tight"` // > 0: gas limit = gas the reference EVM consumes before refunds + GasTight - 1
 }
 
 func genC07Prog(t *rapid.T) (evmasm.Program, []C07Slot) {
@@ -129,6 +130,22 @@ func genC07(t *rapid.T) C07Case {
 	c.NAccess = rapid.IntRange(0, 2).Draw(t, "naccess")
 	if c.Route[:3] == "eth" {
 		c.Prog, c.Pre = genC07Prog(t)
+		// storage-clearing refunds large enough to hit the refund cap
+		if nclr := rapid.SampledFrom([]int{0, 0, 0, 2, 5, 10, 12}).Draw(t, "clears"); nclr > 0 {
+			if len(c.Prog.Frames) == 0 {
+				c.Prog.Frames = []evmasm.Frame{{}}
+			}
+			var ops []evmasm.Op
+			for k := 0; k < nclr; k++ {
+				key := uint64(100 + k)
+				c.Pre = append(c.Pre, C07Slot{Frame: 0, Key: key, Val: 3})
+				ops = append(ops, evmasm.Op{Kind: "sstore", Key: key, Val: 0})
+			}
+			c.Prog.Frames[0].Ops = append(ops, c.Prog.Frames[0].Ops...)
+		}
+		if rapid.IntRange(0, 2).Draw(t, "tight") == 0 {
+			c.GasTight = 1 + rapid.SampledFrom([]int64{0, 1, 500, 3000, 10000, 20000}).Draw(t, "tight-extra")
+		}
 		c.Create = len(c.Prog.Frames) > 0 && rapid.IntRange(0, 5).Draw(t, "create") == 0
 	} else if c.Gas < 200000 {
 		c.Gas = 200000 + c.Gas
@@ -261,6 +278,34 @@ func runC07(st *ev.Stats, c C07Case) string {
 		var al ethtypes.AccessList
 		for i := 0; i < c.NAccess && typ > 0; i++ {
 			al = append(al, ethtypes.AccessTuple{Address: evmasm.FrameAddr(i), StorageKeys: []common.Hash{common.BigToHash(big.NewInt(int64(i)))}})
+		}
+		refEnv := func() refevm.Env {
+			evmParams := app.EvmKeeper.GetParams(n.Ctx())
+			var eips []int
+			for _, e := range evmParams.ExtraEIPs {
+				eips = append(eips, int(e))
+			}
+			return refevm.Env{ChainConfig: evmParams.ChainConfig.EthereumConfig(big.NewInt(11235)), ExtraEips: eips, BlockNumber: n.Header.Height, Time: uint64(n.Header.Time.Unix()), BaseFee: effBase, GasLimit: 1 << 50, Coinbase: common.Address{}}
+		}
+		if c.GasTight > 0 {
+			// choose the gas limit just above what the execution needs before refunds (probe with a generous limit)
+			probePre := map[common.Address]refevm.Account{}
+			for k, v := range pre {
+				probePre[k] = v
+			}
+			probePre[sender.Hex] = refevm.Account{Balance: bal(sender.Addr), Nonce: seq0}
+			probePre[recv.Hex] = refevm.Account{Balance: bal(recv.Addr)}
+			pr := refevm.Apply(probePre, refevm.Msg{From: sender.Hex, To: to, Nonce: seq0, Value: value, GasLimit: 5000000, GasPrice: price, FeeCap: price, TipCap: tipFor(typ, tip, price), Data: data, Access: al}, refEnv())
+			if pr.Err == nil {
+				u, rc := pr.UsedGas, pr.State.GetRefund()
+				consumed := u + rc
+				if rc*5 > consumed {
+					consumed = (u*5 + 3) / 4
+				}
+				c.Gas = consumed + uint64(c.GasTight-1)
+				gasB = new(big.Int).SetUint64(c.Gas)
+				st.Class("tight-gas-limit")
+			}
 		}
 		e := txb.Eth{Type: typ, ChainID: big.NewInt(11235), Nonce: seq0, To: to, Value: value, Gas: c.Gas, GasPrice: price, FeeCap: price, TipCap: tip, Data: data, Access: al}
 		signed := txb.SignEth(sender, e)
